@@ -506,6 +506,12 @@ def gen_patch(rng, model, params, world_labels, ids, allow_cf=True, in_data=Fals
             # ... in front of the patch's last CFI directive: the directive
             # then belongs to the (empty) block the label opens
             lines.insert(len(lines) - 1, {"label": nm, "temp": True})
+            if allow_cf and code_targets and rng.random() < 0.5:
+                # ... and the code in front of the label leaves with a jump
+                # (call emulation: the label is the "return address"); the
+                # label's block is empty, unreachable, and carries the
+                # patch's closing directive
+                lines.insert(len(lines) - 2, {"v": "jmp", "t": rng.choice(code_targets)})
         else:
             lines.append({"label": nm, "temp": True})
     out = {"lines": lines}
@@ -727,7 +733,7 @@ def ops_allowed(model, sd):
             return False
         if adj and any(o["k"] in ("del", "delblock", "rep", "delfn") for o in sd["ops"]):
             return False
-        if adj and any(l.get("v") in ("jmp", "jcc", "call", "ret", "ijmp", "icall") for l in lines):
+        if adj and any(l.get("v") in ("jmp", "jcc", "call", "ret", "ijmp", "icall") for l in lines[: _cfi_tail_jump(lines)]):
             return False
         if adj:
             first = next(i for i, l in enumerate(lines) if "raw" in l and "cfi_adjust_cfa_offset" in l["raw"])
@@ -749,6 +755,15 @@ def ops_allowed(model, sd):
     before = json_key(ops)
     _avoid_ambiguous(model, ops)
     return json_key(ops) == before
+
+
+def _cfi_tail_jump(lines):
+    """Index up to which a CFI-carrying patch must be free of control flow:
+    the one allowed shape with a terminator is `... jmp T; .Ltmp: .cfi_x`
+    (jump, trailing label, the patch's closing directive)."""
+    if len(lines) >= 3 and lines[-3].get("v") == "jmp" and "label" in lines[-2] and (lines[-1].get("raw") or "").startswith(".cfi"):
+        return len(lines) - 3
+    return len(lines)
 
 
 def json_key(x):
@@ -1063,6 +1078,18 @@ def _gen_session(rng, model, params, index):
     spans = [sp for sp in spans if not (set(sp.tok_ids) & padtoks)]
     if not spans or rng.random() < params.get("empty_session_p", 0.05):
         return {"ops": [], "reg_order": []}
+    if rng.random() < params.get("extern_p", 0.0):
+        # get_or_insert_extern_symbol: a new external symbol (proxy, symbol
+        # tables, library list) or, for a name the module already has, that
+        # very symbol; the session's patches may call it
+        for k in range(rng.choice([1, 1, 2])):
+            if wl["externs"] and rng.random() < 0.3:
+                nm = rng.choice(wl["externs"])
+            else:
+                nm = f"nx{index}_{k}"
+            ops.append({"k": "extern", "name": nm, "lib": rng.choice(["libx.so", "liby.so.1", "x.dll"]), "preload": rng.random() < 0.3, "libpath": rng.random() < 0.3})
+            if nm not in wl["externs"]:
+                wl["externs"] = wl["externs"] + [nm]
     if rng.random() < params.get("insfn_p", 0.08) and params.get("_fmt") and ".text" in model.sections:
         for k in range(rng.choice([1, 1, 2])):
             nm = f"nf{index}_{k}"
